@@ -14,4 +14,29 @@ META = {
   "text": "For every layout (all assignments of the boundary alphabet {0,1,2,2^32-3..2^32-1} to <=3 owners x <=3 tokens, exhaustively; random layouts up to 64 owners x 128 tokens) and every boundary key, IncludesKey on the reported ranges is compared with the real lookup (a zone-aware ring.Ring client with zones = RF fed through the store, and an all-active PartitionRing); tiling (exactly one owner per key and zone) and range well-formedness are asserted directly.",
   "note": "Trusted: the lookup side is the real Ring.Get/ActivePartitionForKey (checked against the walk specification by C01/C15). Random layouts are sampled; boundary keys sampled on large layouts.",
  },
+ "C02": {
+  "technique": "runtime monitor over real executors: minimal ack sets accepted by a real DoBatch x minimal answer sets accepted by a real DoUntilQuorum on real ring lookups; set-intersection oracle",
+  "text": "For seeded-random rings (1-8 instances, 1-5 zones, RF 1-5, all states and heartbeat ages, under a virtual clock) every minimal acknowledging subset of the real Write replica set is driven through a real DoBatch, every minimal answering subset (instances or whole zones) of the real ring-wide Read set through a real DoUntilQuorum; for every accepted pair the monitor checks a common instance (also against the ids DoUntilQuorum actually returned). Held = all accepted pairs on the listed rings intersect.",
+  "note": "Sampling of rings and keys; subsets exhaustive per ring (read subsets capped at 40 when there are more). Trusted: Go synctest, RecStore.",
+ },
+ "C03": {
+  "technique": "runtime algebraic-law monitor on real Merge: exhaustive pairs/strided triples over a small universe + shuffled/regrouped/duplicated deliveries to replicas",
+  "text": "Real Desc.Merge and PartitionRingDesc.Merge (localCAS=false) run on deep clones: idempotence, commutativity, associativity, sufficiency of the reported change (into the pre-merge state and into a superset replica), nil-change => unchanged content, and the per-entry newer-wins/removal-wins-on-tie rule, on all pairs of a 343-descriptor instance universe and of a 494-descriptor partition universe per content world, strided triples, and random update sets delivered to 3-5 replicas in shuffled order with regrouping and duplication (unsorted/duplicated incoming token lists).",
+  "note": "Precondition enforced by construction: one content per (entry, timestamp, removed?), disjoint token sets. Triples are strided in quick, complete over timestamps {1,2} in thorough.",
+ },
+ "C05": {
+  "technique": "runtime invariant monitor + exact reference state after every real Merge in long collision-heavy chains; lookups on a real ring.Ring fed each reached state",
+  "text": "Chains of gossip merges, replica-to-replica full-state/change merges and local-CAS merges over a 6-10 token space (collisions in ~40% of steps) run on the real Merge under a virtual clock; after every step the receiver is compared exactly with last-writer-wins followed by the statement's collision rule, one-holder/sortedness invariants are asserted, repeated merges must agree (map order), and the reader-visible state is served by a real ring.Ring queried through Get, GetReplicationSetForOperation, GetTokenRangesForInstance and ShuffleShard[WithLookback] for ErrInconsistentTokensInfo and panics.",
+  "note": "Cross-replica winner equality is only demanded through the per-merge rule (replicas with different histories may legitimately differ until owners heartbeat again; DESIGN C05 F).",
+ },
+ "C16": {
+  "technique": "runtime post-condition monitor on real generators: hostile taken sets from the replayed PRNG, birthday-size requests, full per-zone token tables via a verif hook, per-prefix ownership spread, AddPartition sequences",
+  "text": "Random generator: seeded generators whose next candidates are placed in the taken set, unseeded and concurrent use, 3x10^5-token requests; spread-minimising: token tables of all instances 0..300 (thorough 0..2000) x 8 zones obtained through the verif hook and cross-checked against each instance's own generator and the name-based constructor, congruence mod 8, global uniqueness, sub-requests under taken sets equal own-tokens-minus-taken, ownership spread < 1% on every evaluated prefix; partitions added one by one equal the generator and stay disjoint.",
+  "note": "Negative counts are outside the domain. Spread prefixes: all <= 64 (two zones: all <= 300) plus a seeded stride; thorough reaches instance index 2000.",
+ },
+ "C20": {
+  "technique": "runtime differential monitor: real resolvers vs grammar specification on exhaustive short strings, pooled lists, random bytes and coverage-guided fuzzing; hop-chain identity monitor incl. real loopback HTTP and bufconn gRPC",
+  "text": "TenantID/TenantIDs/ExtractWithMetadata/TenantIDsFromOrgID/MultiResolver are compared with a byte-class grammar written from the documentation on all 30941 strings of length <= 4 over {a Z 0 . | : = / NUL 0x80 0xFF space -} (thorough: length 5, 402k), lists of 0-5 pooled identifiers, random bytes, and (thorough) 2x10^6 go-fuzz executions; chains of 1-8 inject/extract hops (HTTP header, auth middleware, gRPC metadata, unary/stream interceptors) must fail or preserve the value byte for byte; valid identifiers also cross a real loopback HTTP server and a bufconn gRPC server; requests without org id must be rejected at every entry point.",
+  "note": "Real wire hops only for valid identifiers (HTTP itself rejects control bytes). Empty identifier is inside the documented grammar.",
+ },
 }
